@@ -120,6 +120,39 @@ func (u *Unit) callFunction(fc *frameCtx, fn *ssa.Function, args []*SV, st *Stat
 		name = fn.Origin().String()
 	}
 	con := u.e.contracts[name]
+	if name == "sigs.k8s.io/controller-runtime/pkg/controller/controllerutil.SetControllerReference" && !spec && len(args) >= 2 {
+		// assumed contract: writes only metadata.ownerReferences of the controlled object; error unconstrained
+		u.usedTrusted["assumed contract: "+name+" (writes only the controlled object's ownerReferences)"] = true
+		_, fv := u.ifaceFns()
+		obj := u.c.App(fv, args[1].T)
+		fr := &FrameSpec{Roots: []*Term{u.c.Root(obj)}}
+		if stt := u.ifaceStatic[args[1].T.id]; stt != nil {
+			if pt, ok := stt.Underlying().(*types.Pointer); ok {
+				if sst, ok := pt.Elem().Underlying().(*types.Struct); ok {
+					for i := 0; i < sst.NumFields(); i++ {
+						if sst.Field(i).Name() == "ObjectMeta" {
+							om := u.c.Fld(obj, u.e.lay.fieldID(pt.Elem(), sst, i))
+							if ost, ok := sst.Field(i).Type().Underlying().(*types.Struct); ok {
+								for j := 0; j < ost.NumFields(); j++ {
+									if ost.Field(j).Name() == "OwnerReferences" {
+										var locs []leafLoc
+										u.leafAddrs(u.c.Fld(om, u.e.lay.fieldID(sst.Field(i).Type(), ost, j)), ost.Field(j).Type(), &locs)
+										fr = &FrameSpec{Leaves: locs}
+									}
+								}
+							}
+						}
+					}
+				}
+			}
+		}
+		u.checkCalleeFrame(fc, pc, fr, name, token.NoPos)
+		u.havoc(st, pc, fr)
+		return u.freshResults("SetControllerReference", fn.Signature, st, pc)
+	}
+	if name == "sort.Strings" && !spec && len(args) == 1 && con == nil {
+		return u.sortStringsCall(fc, args[0].T, st, pc)
+	}
 	if con == nil && isDeepCopy(fn) {
 		if spec {
 			specFail("DeepCopy used in a specification")
@@ -814,3 +847,34 @@ func (u *Unit) heapToken(arr *Term) *Term {
 }
 
 func itoa(i int) string { return fmt.Sprintf("%d", i) }
+
+
+// sortStringsCall: assumed contract of sort.Strings(x). Only the elements of x change; the new contents are a
+// permutation of the old ones (a fresh injective index function perm with new[i] == old[perm(i)]) in non-decreasing order.
+func (u *Unit) sortStringsCall(fc *frameCtx, x *Term, st *State, pc *Term) []*SV {
+	c := u.c
+	u.usedTrusted["assumed contract: sort.Strings (permutation of the elements, sorted)"] = true
+	old := u.heapArr(st, SStr)
+	fr := &FrameSpec{Roots: []*Term{c.Root(c.SArr(x))}, Kinds: map[string]bool{heapKey(SStr): true}}
+	nonNil := c.Neq(c.SArr(x), c.Nil())
+	g := c.And(pc, nonNil)
+	u.checkCalleeFrame(fc, g, &FrameSpec{Roots: []*Term{c.Root(c.SArr(x))}}, "sort.Strings", token.NoPos)
+	u.havoc(st, g, fr)
+	nw := u.heapArr(st, SStr)
+	u.counters["perm"]++
+	perm := c.Func(fmt.Sprintf("perm!%d", u.counters["perm"]), []*Sort{SInt}, SInt)
+	i, j := c.BoundVar("pi", SInt), c.BoundVar("pj", SInt)
+	in := func(k *Term) *Term { return c.And(c.Le(c.Int(0), k), c.Lt(k, c.SLen(x))) }
+	ni := c.mk("select", "", SStr, nw, c.SElem(x, i))
+	u.assume(g, c.Forall([]*Term{i}, c.Implies(in(i), c.And(in(c.App(perm, i)), c.Eq(ni, c.Select(old, c.SElem(x, c.App(perm, i)))))), []*Term{ni}))
+	u.assume(g, c.Forall([]*Term{i, j}, c.Implies(c.And(in(i), in(j), c.Neq(i, j)), c.Neq(c.App(perm, i), c.App(perm, j))), []*Term{c.App(perm, i), c.App(perm, j)}))
+	// other elements of the same backing array (outside the slice window) are untouched
+	k := c.BoundVar("pk", SInt)
+	outside := c.Or(c.Lt(k, c.SOff(x)), c.Ge(k, c.Add(c.SOff(x), c.SLen(x))))
+	addr := c.Elm(c.SArr(x), k)
+	nk := c.mk("select", "", SStr, nw, addr)
+	u.assume(g, c.Forall([]*Term{k}, c.Implies(outside, c.Eq(nk, c.Select(old, addr))), []*Term{nk}))
+	nj := c.mk("select", "", SStr, nw, c.SElem(x, j))
+	u.assume(g, c.Forall([]*Term{i, j}, c.Implies(c.And(in(i), in(j), c.Lt(i, j)), c.Not(u.strLt(nj, ni))), []*Term{ni, nj}))
+	return nil
+}
